@@ -567,3 +567,8 @@ _add_family(globals(), _fm, 'falsymulti', _fm.oracle, share=0.04)
 # an update that names its own updater, among the ordinary updates of another port on the same node
 from harness import onceset as _os                      # noqa: E402
 _add_family(globals(), _os, 'onceset', _os.oracle, share=0.03)
+
+
+# updates through a glob port wired with a dictionary topology, tick after tick
+from harness import globdict as _gd                     # noqa: E402
+_add_family(globals(), _gd, 'globdict', _gd.oracle, share=0.02)
